@@ -343,7 +343,7 @@ def raise_signature(formula, err):
     return 'RecursionError-deeply-nested-text'
   if isinstance(err, MemoryError):
     return 'MemoryError'
-  if isinstance(err, IndexError) and dedent(formula) != formula and formula.endswith('\n'):
+  if isinstance(err, IndexError) and dedent(formula) != formula:
     return 'IndexError-syntax-error-position-vs-dedented-text'
   if isinstance(err, SyntaxError):
     if re.search(r'\r(?!\n)', formula):
